@@ -1,5 +1,5 @@
 (* operations of the per-format layout models (NWChem electron section, ...) *)
-From BSE Require Import Model.Val Model.Basis Model.Nwchem.
+From BSE Require Import Model.Val Model.Basis Model.Nwchem Model.G94.
 Definition dec_zshells (v : val) : res (list (Z * list sshell)) :=
   do l <- as_list v;
   mapM (fun x => match x with
@@ -12,5 +12,7 @@ Definition ops_formats (op : string) (args : list val) : option (res val) :=
   match op, args with
   | "nw_write_electron", [VStr harm; els] => Some (do e <- dec_zshells els; do t <- nw_write_electron harm e; ok (VStr t))
   | "nw_read_electron", [ls] => Some (do l <- dec_strs ls; do r <- nw_read_electron l; ok (enc_zshells r))
+  | "g94_write_electron", [els] => Some (do e <- dec_zshells els; do t <- g94_write_electron e; ok (VStr t))
+  | "g94_read_electron", [ls] => Some (do l <- dec_strs ls; do r <- g94_read_electron l; ok (enc_zshells r))
   | _, _ => None
   end.
